@@ -1155,6 +1155,7 @@ class NDArraySerializerBase(
 
         if (
             self.element_serializer.is_trivially_serializable()
+            and self._array_dtype.itemsize > 0
             and not NDArraySerializerBase._has_padding(self._array_dtype)
         ):
             flat_byte_length = flat_length * self._array_dtype.itemsize
